@@ -854,7 +854,7 @@ pub fn build(quick: bool) -> Check {
         bounds: json!({"max_calls": depth, "programs": n_main}),
         exhaustive: true,
         caps_hit: vec![],
-        families: vec![Box::new(main), Box::new(wide), Box::new(pairs), Box::new(triples), Box::new(triples_rot), Box::new(BuiltinFamily), Box::new(long), Box::new(long_wide)],
-        required: vec!["runs_under_another_environment", "shape_contradicting_programs", "chained_responses", "programs_ending_in_drop", "malformed_row_closed_by_drop", "pairs", "triples", "builtin"],
+        families: vec![Box::new(main), Box::new(wide), Box::new(pairs), Box::new(triples), Box::new(triples_rot), Box::new(super::soak::QuietRuns { max_n: if quick { 600 } else { 1300 }, ends_in_completion: false }), Box::new(BuiltinFamily), Box::new(long), Box::new(long_wide)],
+        required: vec!["runs_under_another_environment", "shape_contradicting_programs", "chained_responses", "programs_ending_in_drop", "malformed_row_closed_by_drop", "pairs", "triples", "builtin", "quiet_runs"],
     }
 }
